@@ -18,6 +18,29 @@ Theorem C09_new : forall bytes ps, 0 < ps -> bytes < W64 ->
   forall p, abs_pages (bm_new bytes ps) p = false.
 Proof. exact new_lemma. Qed.
 
+(* the constructors with the implicit (host) page size - NewBitmap::with_len, what MmapRegion::new / from_file /
+   GuestMemoryMmap::from_ranges use - and Default: with_len(len) is AtomicBitmap::new(len, 4096): the invariant
+   holds, it is the empty set over ceil(len / 4096) pages (a trailing partial page included: every byte i < len
+   has its page), byte_size = len *)
+Theorem C09_with_len : forall len, len < W64 ->
+  bm_with_len len = bm_new len 4096 /\
+  bm_inv (bm_with_len len) /\ bm_len (bm_with_len len) = div_ceil len 4096 /\
+  bm_get_byte_size (bm_with_len len) = len /\
+  (forall k, k * 4096 >= len <-> bm_len (bm_with_len len) <= k) /\
+  (forall p, abs_pages (bm_with_len len) p = false) /\
+  (forall i, i < len -> i / 4096 < bm_len (bm_with_len len)).
+Proof. exact with_len_lemma. Qed.
+
+Theorem C09_default :
+  bm_default = bm_new 0 4096 /\ bm_inv bm_default /\ bm_len bm_default = 0 /\ bm_get_byte_size bm_default = 0 /\
+  forall p, abs_pages bm_default p = false.
+Proof. exact default_lemma. Qed.
+
+Example C09_with_len_nonvacuous :
+  bm_len (bm_with_len 6144) = 2 /\ bm_get_byte_size (bm_with_len 6144) = 6144 /\
+  map (abs_pages (bm_mark_dirty (bm_with_len 6144) 4104 1)) [0; 1; 2] = [false; true; false].
+Proof. vm_compute. repeat split. Qed.
+
 (* marking a byte range adds precisely the existing pages the range touches (all ranges: empty,
    past the end, saturating near usize::MAX) *)
 Theorem C09_set_range : forall b a l, bm_inv b -> a < W64 ->
@@ -125,6 +148,8 @@ Proof. vm_compute. repeat split. Qed.
 
 Print Assumptions C09_model_ok.
 Print Assumptions C09_new.
+Print Assumptions C09_with_len.
+Print Assumptions C09_default.
 Print Assumptions C09_set_range.
 Print Assumptions C09_reset_range.
 Print Assumptions C09_single_bit.
